@@ -637,3 +637,100 @@ def r11_7(prog, out):
                           "create (or any change the refresh condition does not notice) ListTopicSubscriptions differs from the live subscriptions" % other[0])
         else:
             out.violation(key, bi.loc(src[0]), "the listing is not derived from TopicActor.subscriptions")
+
+
+@rule("C11", "R11.8", "an attach that was overtaken by the subscription's own detach request does not attach", floor=1)
+@rule("C01", "R11.8", "an attach that was overtaken by the subscription's own detach request does not attach", floor=1)
+def r11_8(prog, out):
+    """CreateSubscription registers the name and then sends the attach request from a task; DeleteSubscription of that name can
+    run in between and send its detach request first.  The topic then detaches nothing, attaches the subscription afterwards,
+    and nothing ever removes it: a deleted subscription stays in the topic's list, and every later Publish to the topic fails
+    on its closed mailbox.  The two requests travel through one FIFO mailbox, so it is enough that (1) the deletion marks the
+    subscription *before* it sends the detach request and (2) the attach handler does not attach a marked subscription.
+    HOLDS for exactly this shape; VIOLATION when the attach handler inserts whatever arrives and nothing else orders the two
+    requests; UNDECIDED for other mechanisms (the deletion waits for the creation, lookups hide unattached subscriptions,
+    tombstones in the topic)."""
+    from mapstate import _bool_switches
+    R = roles(prog)
+    A = prog.anchors
+    attach = R.attach_variant()
+    key = "overtaken-attach"
+    tids = R.variant_targets(R.topic_actor, attach)
+    if not tids:
+        raise CheckBroken("attach handler not found")
+    tid = tids[0]
+    bi = prog.info(tid)
+    ins = [e for e in prog.effects(tid) if e.touches(R.topic_subs) and e.kind in L.INSERT_KINDS]
+    if not ins:
+        raise CheckBroken("the attach handler does not insert into the topic's subscription set")
+    # (2) a flag of the subscription consulted by the attach handler: the insert only happens on its `false` arm
+    flag = None
+    for e in prog.effects(tid):
+        if e.kind != "atomic_load" or not e.cells:
+            continue
+        t = bi.body.blocks[e.bb].term if not e.chain else None
+        if t is None or t.k != "call" or t.dest is None or not t.dest.is_local():
+            continue
+        for sw, tr, fa in _bool_switches(bi, t.dest.local):
+            if fa is not None and all(x.bb in bi.cfg.edge_dominated(sw, fa) for x in ins):
+                flag = (e.cells[-1], e.bb)
+    # the detach request: who builds it
+    detach_variant = None
+    for vname in R.topic_actor.variants:
+        for t2 in R.variant_targets(R.topic_actor, vname):
+            effs = prog.effects(t2)
+            if any(e.touches(R.topic_subs) and e.kind in L.REMOVE_KINDS for e in effs) and not any(e.touches(R.topic_subs) and e.kind == "clear" for e in effs):
+                detach_variant = vname
+    cons = sorted({b for b, _, _, _ in prog.constructions(R.topic_actor.request, detach_variant)}) if detach_variant else []
+    if not cons:
+        raise CheckBroken("detach request never built")
+    if flag is not None:
+        cell, lbb = flag
+        # (1) the flag is raised before the detach request can be sent
+        ok = False
+        where = None
+        for b in prog.facts.lib_bodies():
+            ebi = prog.info(b.id)
+            for e in prog.effects(b.id):
+                if e.chain or e.kind != "atomic_store" or not e.cells or e.cells[-1] != cell:
+                    continue
+                st = ebi.body.blocks[e.bb].term
+                if st.k != "call" or len(st.args) < 2 or st.args[1].const_bool() is not True:
+                    continue
+                where = (b.id, e.bb)
+                # the detach is sent from this body, or from something it calls / builds / spawns after the store
+                ALL = ("call", "closure", "poll", "spawn")
+                sites = [bb2 for (cb2, bb2, _i, _rv) in prog.constructions(R.topic_actor.request, detach_variant) if cb2 == b.id]
+                for ed in prog.edges(b.id):
+                    if set(cons) & set(prog.cone(ed.dst, follow=ALL)):
+                        sites.append(ed.bb)
+                if sites and all(ebi.cfg.dominates(e.bb, x) for x in sites):
+                    ok = True
+        if ok:
+            out.holds(key, bi.loc(lbb), "the deletion marks the subscription before it sends the detach request, and the attach handler does not attach a marked subscription")
+        elif where is None:
+            out.violation(key, bi.loc(lbb), "the attach handler consults a flag of the subscription that no deletion ever raises")
+        else:
+            out.violation(key, prog.loc(*where), "the flag the attach handler consults is not raised before the detach request is sent: the detach can still overtake the attach")
+        return
+    # no flag: is there another mechanism?
+    other = []
+    guards = [blk.idx for blk in bi.body.blocks if not blk.cleanup and blk.term.k == "switch" and any(bi.cfg.dominates(blk.idx, x.bb) for x in ins)]
+    rem_tids = R.variant_targets(R.topic_actor, detach_variant)
+    if any(e.kind in L.INSERT_KINDS and not e.touches(R.topic_subs) for t2 in rem_tids for e in prog.effects(t2) if e.cells and e.root[0] in ("param", "upvar")):
+        other.append("the detach handler records something (tombstones?)")
+    for c in cons:
+        # an await in front of the detach send in the deletion task (the deletion waits for something first)
+        ci = prog.info(c)
+        sends = [a for a in ci.awaits if await_class(prog, ci, a) == "mpsc_send"]
+        for a in ci.awaits:
+            if sends and a is not sends[0] and await_class(prog, ci, a) not in ("mpsc_send", "oneshot_recv") and ci.cfg.dominates(a.poll_bb, sends[0].poll_bb):
+                other.append("the deletion awaits %s before detaching" % await_class(prog, ci, a))
+    if len(guards) > 1:
+        other.append("the attach handler tests more than the vacancy of the name")
+    if other:
+        out.undecided(key, prog.loc(tid), "no `deletion has begun` flag is consulted by the attach handler, but %s: not decided" % "; ".join(sorted(set(other))))
+    else:
+        out.violation(key, prog.loc(tid, ins[0].bb), "the attach handler attaches whatever arrives, and nothing orders a subscription's attach request (sent from a task after the "
+                      "name was registered) before its own detach request: DeleteSubscription racing CreateSubscription leaves a deleted subscription attached to the topic "
+                      "for ever, and every later Publish to the topic fails on its closed mailbox")
